@@ -238,10 +238,14 @@ def run(ctx):
         "returns: capacity, used (open limiters), last, closed of every limiter and the waiting queue in order as "
         "limiter:amount (requests on closed limiters left out), read under the lock by go/overlay/c16_rate_dump.go and "
         "printed by the driver from RL.S; in a window the dump is part of the outcome that selects the interleaving",
-        "Model/RateLimiterInt.lean (the code's subtractions / additions through wrap64 on the model's naturals) is NOT run "
-        "against the code: C16.go_int_arithmetic_is_model_arithmetic is the one-step arithmetic fact that justifies naturals "
-        "in the model; the tie of the arithmetic near MaxInt is the burst stream itself (genLimits and the corpus: caps and "
-        "amounts at MaxInt, MaxInt-1, MaxInt-10, usage summing past MaxInt; answers and white-box state dump)",
+        "the DECISIONS of Use and of one iteration of the tick's loop are transcribed a second time on machine ints "
+        "(RL.useDecI / RL.tickDecI, Model/RateLimiterInt.lean: state and amount as Go ints, effectiveCap()'s running minimum, "
+        "capacity-used and its running minimum with wrap-around, the comparisons in the code's order), independently of "
+        "fits / effCap / RL.micro; C16.machine_int_decisions_are_the_models: on every reachable state with capacities <= "
+        "MaxInt they are the decisions RL.exec and RL.service act on, for every amount; the driver runs useDecI next to the "
+        "model on every `use` line (token machine-int-decision-differs); contrast "
+        "C16.adding_before_comparing_grants_what_it_must_queue; the tie of this arithmetic to the Go code remains the burst "
+        "stream near MaxInt (genLimits, corpus), the loop-level composition of tickDecI over a whole queue is not a theorem",
     ]
     ctx.assumptions += [
         "capacities: New / Limiter.New / SetCap are given any Go int and store max(capacity, 0) (commit 4e94d2c); the "
